@@ -2,8 +2,11 @@
 
 // Client-side (ASSUMED) contract of the in-process store internal/memory, as seen by this package.
 // The functions themselves are verified in /repo/internal/memory/zz_contracts_verif.go against the real
-// map; this copy restates that contract over a ghost map (the engine loads, for a package, only the
-// dependency specs and the package's own contract files).
+// map (key set, stored value and expiry, expiry rule of Get, gc); this copy restates that contract over a ghost
+// map (the engine loads, for a package, only the dependency specs and the package's own contract files).
+// The clauses `client-model-*` of internal/memory prove that the real functions simulate this model (relation: a
+// present, unexpired, non-nil entry is flagged, with its value) for a clock that does not run backwards; the
+// table at the end of internal/memory/zz_contracts_verif.go says which clause below is covered by which.
 
 package csrf
 
